@@ -201,3 +201,10 @@ Proof.
       vm_compute in Ec. injection Ec as <-. vm_compute in Es. injection Es as <-.
       split; [apply no_forgery_b_sound; vm_compute; reflexivity|]. split; vm_compute; reflexivity.
 Qed.
+
+(* the numbers and tables this property's model uses are the ones the sources declare: Model/GenConsts.v is
+   regenerated from the repository under test (tools/consts) before every build *)
+From V Require Import Model.GenConsts Proofs.TieC03.
+Theorem C03_constants_are_the_sources : TieC03.tie.
+Proof. exact TieC03.tie_holds. Qed.
+Print Assumptions C03_constants_are_the_sources.
